@@ -141,15 +141,27 @@ func schedCase(id int, dir string, c *Case, args []string, run *Run) {
 		pdir := dir + "-perm"
 		os.RemoveAll(pdir)
 		os.MkdirAll(pdir, 0o755)
-		for _, f := range c.Files {
-			os.WriteFile(pdir+"/"+f.Name, []byte(permuteBlocks(r, f.Content)), 0o644)
-		}
-		o1, _, _ := runBinary(plainBin, dir, nil, append([]string{"-format", "csv"}, args...)...)
-		o2, _, _ := runBinary(plainBin, pdir, nil, append([]string{"-format", "csv"}, args...)...)
-		runs += 2
-		if d := compareCells(parseCSVCells(o1), parseCSVCells(o2)); d != "" {
-			perm = 0
-			detail = "perm: " + d
+		o1, e1, _ := runBinary(plainBin, dir, nil, append([]string{"-format", "csv"}, args...)...)
+		runs++
+		// two permutations: a random shuffle of every block, and every block reversed
+		for _, mode := range []string{"shuffle", "reverse"} {
+			for _, f := range c.Files {
+				content := permuteBlocks(r, f.Content)
+				if mode == "reverse" {
+					content = reverseBlocks(f.Content)
+				}
+				os.WriteFile(pdir+"/"+f.Name, []byte(content), 0o644)
+			}
+			o2, e2, _ := runBinary(plainBin, pdir, nil, append([]string{"-format", "csv"}, args...)...)
+			runs++
+			if d := compareCells(parseCSVCells(o1), parseCSVCells(o2)); d != "" {
+				perm = 0
+				detail = "perm(" + mode + "): " + d
+			} else if w1, w2 := warningBag(e1), warningBag(e2); w1 != w2 {
+				// the warnings (cell references aside: rows may move) are part of a cell's content
+				perm = 0
+				detail = fmt.Sprintf("perm(%s): warnings %q vs %q", mode, w1, w2)
+			}
 		}
 		if os.Getenv("VERIF_KEEP") == "" {
 			os.RemoveAll(pdir)
@@ -187,6 +199,27 @@ func permuteBlocks(r *hx.Rand, content string) string {
 		for a := len(blk) - 1; a > 0; a-- {
 			b := r.Intn(a + 1)
 			blk[a], blk[b] = blk[b], blk[a]
+		}
+		i = j
+	}
+	return strings.Join(lines, "\n") + "\n"
+}
+
+// reverseBlocks reverses the result lines inside every maximal run of result lines.
+func reverseBlocks(content string) string {
+	lines := strings.Split(strings.TrimSuffix(content, "\n"), "\n")
+	i := 0
+	for i < len(lines) {
+		if !strings.HasPrefix(lines[i], "Benchmark") {
+			i++
+			continue
+		}
+		j := i
+		for j < len(lines) && strings.HasPrefix(lines[j], "Benchmark") {
+			j++
+		}
+		for a, b := i, j-1; a < b; a, b = a+1, b-1 {
+			lines[a], lines[b] = lines[b], lines[a]
 		}
 		i = j
 	}
@@ -550,4 +583,26 @@ func tidyFamily(id, idx int) {
 		hx.Printf("crash %d %s\n", id, crashed)
 	}
 	hx.Flush()
+}
+
+// warningBag: the multiset of warning messages on stderr of a csv run, without the spreadsheet
+// cell references in front (rows may legitimately change places) and without reader diagnostics
+// that carry line numbers.
+func warningBag(stderr []byte) string {
+	var ws []string
+	for _, l := range linesOf(stderr) {
+		i := strings.Index(l, ": ")
+		if i < 0 || i > 6 || l[0] < 'A' || l[0] > 'Z' {
+			continue // not a `<cell>: message` line (syntax errors name file:line)
+		}
+		msg := l[i+2:]
+		// only the warnings of a cell's own sample and summary: comparison and geomean warnings
+		// depend on which column is the baseline, which a by-first-observation column order lets
+		// the permutation change (see baseline_depends_on_first_observation)
+		if strings.HasPrefix(msg, "benchmarks vary in ") || strings.Contains(msg, "samples for confidence interval") || strings.HasPrefix(msg, "exact distribution expected") {
+			ws = append(ws, msg)
+		}
+	}
+	sort.Strings(ws)
+	return strings.Join(ws, "|")
 }
